@@ -1,6 +1,7 @@
 """C13 - a validated document cannot go wrong: rule-set integrity only."""
 from __future__ import annotations
 
+from rules import generic_rules as G
 from rules import validation_rules as V
 from rules.astmodel import AstModel
 from sa.loader import Repo
@@ -38,3 +39,7 @@ def run(check: Check, repo: Repo, tier: str) -> None:
     X.await_guard(check, repo, em)
     X.collect_guard(check, repo)
     X.handler_nulls(check, repo, em)
+    G.sentinel_identity(check, em + [repo.mod(m) for m in ("utilities.coerce_input_value", "utilities.validate_input_value",
+                                                           "utilities.replace_variables", "validation.rules.values_of_correct_type",
+                                                           "validation.rules.variables_in_allowed_position")])
+    check.floor("SENTINEL-IDENTITY", 15, "comparisons against Undefined")
